@@ -210,107 +210,137 @@ structure WCfg where
   bloom : Nat → Bool        -- column has a bloom filter (`len(c.filter) > 0`)
   plainFooter : Bool        -- `!EncryptedFooter`: column metadata is sealed separately
 
-structure WSt where
-  nrg : Nat
+/-- the column writers of ONE row group writer (the writer's own `currentRowGroup`, or one made by
+    `BeginRowGroup`): `colRg` = `ColumnWriter.rowGroupOrdinal` (assigned together for all columns),
+    `await` = `ColumnWriter.awaitOrdinal`, `numPages`, `buf` = page buffers as above,
+    `rows` = `totalRowCount() > 0` -/
+structure RgSt where
   colRg : Nat
+  await : Bool
   numPages : Nat → Nat
   buf : Nat → List (Nat × Used × Used)
   rows : Bool
+
+structure WSt where
+  nrg : Nat            -- `len(w.rowGroups)`
+  main : RgSt          -- `w.currentRowGroup`
+  crg : Nat → RgSt     -- the row groups made by `BeginRowGroup`, by identity
   log : List Ev
 
 inductive WOp where
-  /-- rows are buffered without any page being produced -/
+  /-- rows are buffered in the writer's own row group without any page being produced -/
   | write
-  /-- `ColumnWriter.writeDataPage` of an encrypted column (writer.go:2494-2521), whoever calls it:
-      a full page buffer during Write, `ColumnWriter.Flush`, `ColumnWriter.Close` (Writer.Close
-      calls it for every column BEFORE writer.close, writer.go:472-477) -/
+  /-- `ColumnWriter.writeDataPage` of an encrypted column of the writer's own row group
+      (writer.go:2494-2521), whoever calls it: a full page buffer during Write,
+      `ColumnWriter.Flush`, `ColumnWriter.Close` (Writer.Close calls it for every column BEFORE
+      writer.close, writer.go:472-477) -/
   | page (col : Nat)
-  /-- `writer.writeRowGroup` (writer.go:1490-1833) reached through Flush, Close, the row limit or
+  /-- `writer.writeRowGroup(w.currentRowGroup)` reached through Flush, Close, the row limit or
       `WriteRowGroup`; `last` lists the columns whose `c.Flush()` produces one more page -/
   | flush (last : List Nat)
-  /-- `ConcurrentRowGroupWriter.Commit` (writer.go:989-994) of a row group made by `BeginRowGroup`:
-      `writer.flush()` of the writer's own row group (`lastCur`: its columns that still emit a
-      page), then `writeRowGroup(rg)`. The column writers of `rg` hold the key but buffer their
-      values (`awaitOrdinal`: Flush and Close are no-ops) until writeRowGroup has assigned the
-      ordinal, so all their pages (`lastRg`) are sealed inside writeRowGroup. -/
-  | commit (lastCur lastRg : List Nat)
+  /-- rows written to the row group `id` made by `BeginRowGroup` (`rg.WriteRows`, ColumnWriters) -/
+  | cwrite (id : Nat)
+  /-- `ColumnWriter.Flush` on a column of row group `id`: a page spilling because the page buffer
+      is full, `rg.Flush()`, or a direct call. A no-op while `awaitOrdinal` is set. -/
+  | cpage (id col : Nat)
+  /-- `ConcurrentRowGroupWriter.Commit` of row group `id` (writer.go:989-994): `writer.flush()` of
+      the writer's own row group (`lastCur`: its columns that still emit a page), then
+      `writeRowGroup(rg)` (`lastRg`: the columns of `rg` whose `c.Flush()` emits a page). The row
+      group can be written to and committed again afterwards. -/
+  | commit (id : Nat) (lastCur lastRg : List Nat)
   /-- `writer.reset` (writer.go:1201-1245) through `Writer.Reset` / `GenericWriter.Reset` -/
   | reset
 deriving DecidableEq, Repr
 
-def winit : WSt := { nrg := 0, colRg := 0, numPages := fun _ => 0, buf := fun _ => [], rows := false, log := [] }
+def rgEmpty (colRg : Nat) (await : Bool) : RgSt :=
+  { colRg := colRg, await := await, numPages := fun _ => 0, buf := fun _ => [], rows := false }
 
-/-- writer.go:2494-2521 + writePageTo 2643-2661: seal header and body with
+/-- `newWriter` (ordinal 0, writer.go:1186) and `newConcurrentRowGroupWriter` with encryption
+    (`awaitOrdinal = true`, `rowGroupOrdinal` zero value) -/
+def winit : WSt := { nrg := 0, main := rgEmpty 0 false, crg := fun _ => rgEmpty 0 true, log := [] }
+
+/-- writer.go:2494-2521 + writePageTo: seal header and body with
     `(c.rowGroupOrdinal, c.columnOrdinal, int16(c.numPages))`, append to the page buffer,
-    `c.numPages++` -/
-def wpage (s : WSt) (col : Nat) : WSt :=
-  let u : Nat × Used × Used :=
-    ((s.buf col).length, ⟨.dataPageHeader, [s.colRg, col, s.numPages col]⟩, ⟨.dataPage, [s.colRg, col, s.numPages col]⟩)
-  { s with
-    numPages := fun c => if c = col then s.numPages col + 1 else s.numPages c
-    buf := fun c => if c = col then s.buf col ++ [u] else s.buf c
+    `c.numPages++`. `ColumnWriter.Flush` returns at once while `awaitOrdinal` is set. -/
+def upage (u : RgSt) (col : Nat) : RgSt :=
+  if u.await then { u with rows := true } else
+  let e : Nat × Used × Used :=
+    ((u.buf col).length, ⟨.dataPageHeader, [u.colRg, col, u.numPages col]⟩, ⟨.dataPage, [u.colRg, col, u.numPages col]⟩)
+  { u with
+    numPages := fun c => if c = col then u.numPages col + 1 else u.numPages c
+    buf := fun c => if c = col then u.buf col ++ [e] else u.buf c
     rows := true }
 
 /-- what one column contributes to the file when the row group with index `rgi` is written:
-    dictionary page (writer.go:1589-1594, sealed NOW with `c.rowGroupOrdinal`, 2588/2593), the
-    buffered pages (copied verbatim, 1611), the bloom filter (1684 → 2382/2387), and in
-    plaintext-footer mode the column metadata (1728, sealed with the loop indices) -/
-def emitCol (cfg : WCfg) (s : WSt) (rgi col : Nat) : List Ev :=
+    dictionary page (sealed NOW with `c.rowGroupOrdinal`, 2588/2593), the buffered pages (copied
+    verbatim), the bloom filter (2382/2387), and in plaintext-footer mode the column metadata
+    (1728, sealed with the loop indices) -/
+def emitCol (cfg : WCfg) (u : RgSt) (rgi col : Nat) : List Ev :=
   (if cfg.dict col then
-    [⟨.dictPageHeader rgi col, ⟨.dictPageHeader, [s.colRg, col, 0]⟩⟩,
-     ⟨.dictPage rgi col, ⟨.dictPage, [s.colRg, col, 0]⟩⟩] else []) ++
-  (s.buf col).flatMap (fun p => [⟨.dataPageHeader rgi col p.1, p.2.1⟩, ⟨.dataPage rgi col p.1, p.2.2⟩]) ++
+    [⟨.dictPageHeader rgi col, ⟨.dictPageHeader, [u.colRg, col, 0]⟩⟩,
+     ⟨.dictPage rgi col, ⟨.dictPage, [u.colRg, col, 0]⟩⟩] else []) ++
+  (u.buf col).flatMap (fun p => [⟨.dataPageHeader rgi col p.1, p.2.1⟩, ⟨.dataPage rgi col p.1, p.2.2⟩]) ++
   (if cfg.bloom col then
-    [⟨.bloomHeader rgi col, ⟨.bloomHeader, [s.colRg, col]⟩⟩,
-     ⟨.bloomBits rgi col, ⟨.bloomBits, [s.colRg, col]⟩⟩] else []) ++
+    [⟨.bloomHeader rgi col, ⟨.bloomHeader, [u.colRg, col]⟩⟩,
+     ⟨.bloomBits rgi col, ⟨.bloomBits, [u.colRg, col]⟩⟩] else []) ++
   (if cfg.plainFooter then [⟨.columnMeta rgi col, ⟨.columnMeta, [rgi, col]⟩⟩] else [])
 
-/-- writer.go:1490-1833 -/
+/-- the body of `writeRowGroup` (writer.go:1519-1790) for the row group writer `u` that gets index
+    `rgi`: assign the ordinal, clear `awaitOrdinal`, flush the last pages, emit -/
+def rgWrite (cfg : WCfg) (u : RgSt) (rgi : Nat) (last : List Nat) : List Ev :=
+  let u := last.foldl upage { u with colRg := rgi, await := false }
+  (List.range cfg.ncols).flatMap (emitCol cfg u rgi)
+
+/-- `writeRowGroup(w.currentRowGroup)`: an empty row group is skipped (1494-1497); the deferred
+    block resets the row group writer and gives it the next ordinal (1508-1530) -/
 def wflush (cfg : WCfg) (s : WSt) (last : List Nat) : WSt :=
-  if !s.rows then s else                                  -- 1494-1497: an empty row group is skipped
-  let rgi := s.nrg                                        -- 1498
-  let s := { s with colRg := rgi }                        -- 1519-1523
-  let s := last.foldl wpage s                             -- 1525-1528 `c.Flush()`
-  let evs := (List.range cfg.ncols).flatMap (emitCol cfg s rgi)
-  { nrg := s.nrg + 1                                      -- 1790 append to w.rowGroups
-    colRg := s.nrg + 1                                    -- deferred 1508-1516: `int16(len(w.rowGroups))`
-    numPages := fun _ => 0                                -- rg.reset() → ColumnWriter.reset
-    buf := fun _ => []
-    rows := false
-    log := s.log ++ evs }
+  if !s.main.rows then s else
+  { s with nrg := s.nrg + 1, main := rgEmpty (s.nrg + 1) false, log := s.log ++ rgWrite cfg s.main s.nrg last }
 
-/-- AS IT WAS before the repair (kept as a regression fact): row groups, indexes and buffers were
-    cleared; NOTHING touched `ColumnWriter.rowGroupOrdinal` (nor `fileEncryptionState.fileUnique`) -/
+/-- `Commit` of row group `id`. `fixed = true` is the code as it is: the deferred block also
+    gives the writer's own (flushed, empty) row group the next ordinal; `false` is the code before
+    that repair, kept as a regression fact. -/
+def wcommit (fixed : Bool) (cfg : WCfg) (s : WSt) (id : Nat) (lastCur lastRg : List Nat) : WSt :=
+  let s := wflush cfg s lastCur
+  let u := s.crg id
+  if !u.rows then s else
+  { s with
+    nrg := s.nrg + 1
+    crg := fun i => if i = id then rgEmpty (s.nrg + 1) true else s.crg i
+    main := if fixed then { s.main with colRg := s.nrg + 1 } else s.main
+    log := s.log ++ rgWrite cfg u s.nrg lastRg }
+
+/-- AS IT WAS before the repair of reset (kept as a regression fact): row groups, indexes and
+    buffers were cleared; NOTHING touched `ColumnWriter.rowGroupOrdinal` -/
 def wresetBefore (s : WSt) : WSt :=
-  { s with nrg := 0, numPages := fun _ => 0, buf := fun _ => [], rows := false, log := [] }
+  { s with nrg := 0, main := rgEmpty s.main.colRg false, log := [] }
 
-/-- writer.go:1201-1245 (repaired): row groups, indexes and buffers are cleared and, with
-    encryption, every column writer gets `rowGroupOrdinal = 0` (and the file a new identifier:
-    the file identifier is a parameter of the AAD, not of this state machine) -/
+/-- writer.go:1201-1245 (repaired): row groups, indexes and buffers are cleared and every column
+    writer of the writer's own row group gets `rowGroupOrdinal = 0` (and the file a new identifier:
+    a parameter of the AAD, not of this state machine). Row groups made by `BeginRowGroup` are
+    not touched: they wait for their ordinal anyway. -/
 def wreset (s : WSt) : WSt :=
-  { s with nrg := 0, colRg := 0, numPages := fun _ => 0, buf := fun _ => [], rows := false, log := [] }
+  { s with nrg := 0, main := rgEmpty 0 false, log := [] }
 
-/-- `Commit`: the writer's own row group first, then the committed one, whose pages are all sealed
-    inside writeRowGroup (its buffers are separate from the writer's, which are empty by then) -/
-def wcommit (cfg : WCfg) (s : WSt) (lastCur lastRg : List Nat) : WSt :=
-  let s1 := wflush cfg s lastCur
-  wflush cfg { s1 with numPages := fun _ => 0, buf := fun _ => [], rows := !lastRg.isEmpty } lastRg
-
-def wstep (cfg : WCfg) (s : WSt) : WOp → WSt
-  | .write => { s with rows := true }
-  | .page col => wpage s col
+def wstepG (fixedCommit fixedReset : Bool) (cfg : WCfg) (s : WSt) : WOp → WSt
+  | .write => { s with main := { s.main with rows := true } }
+  | .page col => { s with main := upage s.main col }
   | .flush last => wflush cfg s last
-  | .commit lastCur lastRg => wcommit cfg s lastCur lastRg
-  | .reset => wreset s
+  | .cwrite id => { s with crg := fun i => if i = id then { s.crg id with rows := true } else s.crg i }
+  | .cpage id col => { s with crg := fun i => if i = id then upage (s.crg id) col else s.crg i }
+  | .commit id a b => wcommit fixedCommit cfg s id a b
+  | .reset => if fixedReset then wreset s else wresetBefore s
 
-/-- the step function of the code before the repair -/
-def wstepBefore (cfg : WCfg) (s : WSt) : WOp → WSt
-  | .reset => wresetBefore s
-  | o => wstep cfg s o
+/-- the code as it is -/
+def wstep (cfg : WCfg) (s : WSt) (o : WOp) : WSt := wstepG true true cfg s o
 
 def wrun (cfg : WCfg) (ops : List WOp) : WSt := ops.foldl (wstep cfg) winit
 
-def wrunBefore (cfg : WCfg) (ops : List WOp) : WSt := ops.foldl (wstepBefore cfg) winit
+/-- the code before the repair of `writer.reset` -/
+def wrunBefore (cfg : WCfg) (ops : List WOp) : WSt := ops.foldl (wstepG true false cfg) winit
+
+/-- the code before the writer's own row group was given the next ordinal after a Commit -/
+def wrunBeforeCommitFix (cfg : WCfg) (ops : List WOp) : WSt := ops.foldl (wstepG false true cfg) winit
 
 /-- writer.close (writer.go:1235-1252): flush, then the page indexes sealed with the loop
     indices `(i, j)` (1343, 1369), then the footer (1423 / 1464) -/
@@ -321,104 +351,176 @@ def wclose (cfg : WCfg) (s : WSt) : List Ev :=
   (List.range s.nrg).flatMap (fun i => (List.range cfg.ncols).map (fun j => (⟨.offsetIndex i j, ⟨.offsetIndex, [i, j]⟩⟩ : Ev))) ++
   [⟨.footer, ⟨.footer, []⟩⟩]
 
+/-- the pages a row group writer holds were sealed for row group `rgi` and for their position -/
+structure UInv (u : RgSt) (rgi : Nat) : Prop where
+  np : ∀ c, u.numPages c = (u.buf c).length
+  buf : ∀ c p, p ∈ u.buf c → p.2.1 = ⟨.dataPageHeader, [rgi, c, p.1]⟩ ∧ p.2.2 = ⟨.dataPage, [rgi, c, p.1]⟩
+
 /-- invariant of every history -/
 structure WInv (s : WSt) : Prop where
-  rg : s.colRg = s.nrg
-  np : ∀ c, s.numPages c = (s.buf c).length
-  buf : ∀ c p, p ∈ s.buf c → p.2.1 = ⟨.dataPageHeader, [s.nrg, c, p.1]⟩ ∧ p.2.2 = ⟨.dataPage, [s.nrg, c, p.1]⟩
+  rg : s.main.colRg = s.nrg
+  na : s.main.await = false
+  main : UInv s.main s.nrg
+  nr : s.main.rows = false → ∀ c, s.main.buf c = []
+  crg : ∀ i, (s.crg i).await = true ∧ (∀ c, (s.crg i).buf c = []) ∧ (∀ c, (s.crg i).numPages c = 0)
   log : ∀ e ∈ s.log, e.Good
 
-theorem winv_init : WInv winit :=
-  ⟨rfl, fun _ => rfl, fun _ _ h => by simp [winit] at h, fun _ h => by simp [winit] at h⟩
+theorem uinv_empty (colRg : Nat) (a : Bool) (rgi : Nat) : UInv (rgEmpty colRg a) rgi :=
+  ⟨fun _ => rfl, fun _ _ h => by simp [rgEmpty] at h⟩
 
-theorem winv_page {s : WSt} (h : WInv s) (col : Nat) : WInv (wpage s col) := by
-  refine ⟨h.rg, ?_, ?_, h.log⟩
+theorem winv_init : WInv winit :=
+  ⟨rfl, rfl, uinv_empty _ _ _, fun _ _ => rfl, fun _ => ⟨rfl, fun _ => rfl, fun _ => rfl⟩, fun _ h => by simp [winit] at h⟩
+
+theorem upage_await {u : RgSt} (h : u.await = true) (col : Nat) :
+    (upage u col).await = true ∧ (upage u col).buf = u.buf ∧ (upage u col).numPages = u.numPages := by
+  simp [upage, h]
+
+theorem uinv_page {u : RgSt} {rgi : Nat} (hr : u.colRg = rgi) (ha : u.await = false) (h : UInv u rgi) (col : Nat) :
+    (upage u col).colRg = rgi ∧ (upage u col).await = false ∧ UInv (upage u col) rgi := by
+  have e : upage u col = { u with
+      numPages := fun c => if c = col then u.numPages col + 1 else u.numPages c
+      buf := fun c => if c = col then u.buf col ++ [((u.buf col).length, ⟨.dataPageHeader, [u.colRg, col, u.numPages col]⟩, ⟨.dataPage, [u.colRg, col, u.numPages col]⟩)] else u.buf c
+      rows := true } := by simp [upage, ha]
+  rw [e]
+  refine ⟨hr, ha, ?_, ?_⟩
   · intro c
-    simp only [wpage]
+    simp only
     split
     · subst_vars; simp [h.np]
     · exact h.np c
   · intro c p hp
-    simp only [wpage] at hp ⊢
+    simp only at hp
     split at hp
     · subst_vars
       rcases List.mem_append.1 hp with hp | hp
       · exact h.buf _ _ hp
       · simp only [List.mem_singleton] at hp
         subst hp
-        simp [h.rg, h.np]
+        simp [h.np]
     · exact h.buf _ _ hp
 
-theorem winv_foldl_page {s : WSt} (h : WInv s) (l : List Nat) : WInv (l.foldl wpage s) := by
-  induction l generalizing s with
-  | nil => exact h
-  | cons a l ih => exact ih (winv_page h a)
+theorem uinv_foldl_page {u : RgSt} {rgi : Nat} (hr : u.colRg = rgi) (ha : u.await = false) (h : UInv u rgi) (l : List Nat) :
+    (l.foldl upage u).colRg = rgi ∧ UInv (l.foldl upage u) rgi := by
+  induction l generalizing u with
+  | nil => exact ⟨hr, h⟩
+  | cons a l ih =>
+    obtain ⟨h1, h2, h3⟩ := uinv_page hr ha h a
+    exact ih h1 h2 h3
 
-theorem foldl_page_nrg (s : WSt) (l : List Nat) : (l.foldl wpage s).nrg = s.nrg ∧ (l.foldl wpage s).log = s.log := by
-  induction l generalizing s with
-  | nil => exact ⟨rfl, rfl⟩
-  | cons a l ih => exact ih (wpage s a)
-
-theorem emitCol_good {cfg : WCfg} {s : WSt} (h : WInv s) (col : Nat) : ∀ e ∈ emitCol cfg s s.nrg col, e.Good := by
+theorem emitCol_good {cfg : WCfg} {u : RgSt} {rgi : Nat} (hr : u.colRg = rgi) (h : UInv u rgi) (col : Nat) :
+    ∀ e ∈ emitCol cfg u rgi col, e.Good := by
   intro e he
   simp only [emitCol, List.mem_append, List.mem_flatMap] at he
   rcases he with ((he | ⟨p, hp, he⟩) | he) | he
   · split at he
     · simp only [List.mem_cons, List.not_mem_nil, or_false] at he
-      rcases he with rfl | rfl <;> simp [Ev.Good, Module.used, Module.type, Module.ords, h.rg]
+      rcases he with rfl | rfl <;> simp [Ev.Good, Module.used, Module.type, Module.ords, hr]
     · simp at he
   · have := h.buf col p hp
     simp only [List.mem_cons, List.not_mem_nil, or_false] at he
     rcases he with rfl | rfl <;> simp [Ev.Good, Module.used, Module.type, Module.ords, this]
   · split at he
     · simp only [List.mem_cons, List.not_mem_nil, or_false] at he
-      rcases he with rfl | rfl <;> simp [Ev.Good, Module.used, Module.type, Module.ords, h.rg]
+      rcases he with rfl | rfl <;> simp [Ev.Good, Module.used, Module.type, Module.ords, hr]
     · simp at he
   · split at he
     · simp only [List.mem_cons, List.not_mem_nil, or_false] at he
       subst he; simp [Ev.Good, Module.used, Module.type, Module.ords]
     · simp at he
 
+/-- whatever ordinal a row group writer held before, if its buffers hold pages sealed for `rgi`
+    (in particular none), everything `writeRowGroup` emits for index `rgi` is sealed for its slot -/
+theorem rgWrite_good {cfg : WCfg} {u : RgSt} {rgi : Nat} (h : UInv u rgi) (last : List Nat) :
+    ∀ e ∈ rgWrite cfg u rgi last, e.Good := by
+  intro e he
+  simp only [rgWrite, List.mem_flatMap] at he
+  obtain ⟨c, _, he⟩ := he
+  have h0 : UInv { u with colRg := rgi, await := false } rgi := ⟨h.np, h.buf⟩
+  obtain ⟨h1, h2⟩ := uinv_foldl_page (u := { u with colRg := rgi, await := false }) rfl rfl h0 last
+  exact emitCol_good h1 h2 c e he
+
 theorem winv_flush {cfg : WCfg} {s : WSt} (h : WInv s) (last : List Nat) : WInv (wflush cfg s last) := by
   unfold wflush
   split
   · exact h
-  · have h0 : WInv { s with colRg := s.nrg } := ⟨rfl, h.np, h.buf, h.log⟩
-    have h1 := winv_foldl_page h0 last
-    have hn := foldl_page_nrg { s with colRg := s.nrg } last
-    refine ⟨rfl, fun _ => rfl, fun _ _ hp => by simp at hp, ?_⟩
+  · refine ⟨rfl, rfl, uinv_empty _ _ _, fun _ _ => rfl, h.crg, ?_⟩
     intro e he
-    simp only [List.mem_append, List.mem_flatMap] at he
-    rcases he with he | ⟨c, _, he⟩
-    · exact h1.log e he
-    · have := emitCol_good (cfg := cfg) h1 c e
-      rw [hn.1] at this
-      exact this he
+    rcases List.mem_append.1 he with he | he
+    · exact h.log e he
+    · exact rgWrite_good h.main last e he
 
-theorem winv_reset {s : WSt} : WInv (wreset s) :=
-  ⟨rfl, fun _ => rfl, fun _ _ h => by simp [wreset] at h, fun _ h => by simp [wreset] at h⟩
+theorem wflush_main_empty {cfg : WCfg} {s : WSt} (h : WInv s) (last : List Nat) (c : Nat) :
+    (wflush cfg s last).main.buf c = [] := by
+  unfold wflush
+  split
+  · rename_i hr
+    exact h.nr (by simpa using hr) c
+  · rfl
 
-theorem winv_commit {cfg : WCfg} {s : WSt} (h : WInv s) (a b : List Nat) : WInv (wcommit cfg s a b) := by
+theorem winv_commit {cfg : WCfg} {s : WSt} (h : WInv s) (id : Nat) (a b : List Nat) : WInv (wcommit true cfg s id a b) := by
   unfold wcommit
   have h1 := winv_flush (cfg := cfg) h a
-  have h2 : WInv { wflush cfg s a with numPages := fun _ => 0, buf := fun _ => [], rows := !b.isEmpty } :=
-    ⟨h1.rg, fun _ => rfl, fun _ _ hp => absurd hp List.not_mem_nil, h1.log⟩
-  exact winv_flush h2 b
+  have hempty := wflush_main_empty (cfg := cfg) h a
+  simp only
+  split
+  · exact h1
+  · refine ⟨rfl, h1.na, ⟨h1.main.np, ?_⟩, fun _ c => hempty c, ?_, ?_⟩
+    · intro c p hp
+      simp only [if_true] at hp
+      rw [hempty c] at hp
+      cases hp
+    · intro i
+      simp only
+      split
+      · exact ⟨rfl, fun _ => rfl, fun _ => rfl⟩
+      · exact h1.crg i
+    · intro e he
+      rcases List.mem_append.1 he with he | he
+      · exact h1.log e he
+      · have hc := h1.crg id
+        refine rgWrite_good ⟨fun c => by rw [hc.2.2 c, hc.2.1 c]; rfl, fun c p hp => ?_⟩ b e he
+        rw [hc.2.1 c] at hp
+        cases hp
+
+theorem winv_reset {s : WSt} (h : WInv s) : WInv (wreset s) :=
+  ⟨rfl, rfl, uinv_empty _ _ _, fun _ _ => rfl, h.crg, fun _ he => by simp [wreset] at he⟩
+
+theorem winv_step {cfg : WCfg} {s : WSt} (h : WInv s) (o : WOp) : WInv (wstep cfg s o) := by
+  cases o with
+  | write =>
+    simp only [wstep, wstepG]
+    exact ⟨h.rg, h.na, ⟨h.main.np, h.main.buf⟩, fun hr => by simp at hr, h.crg, h.log⟩
+  | page col =>
+    simp only [wstep, wstepG]
+    obtain ⟨h1, h2, h3⟩ := uinv_page h.rg h.na h.main col
+    refine ⟨h1, h2, h3, fun hr => ?_, h.crg, h.log⟩
+    simp [upage, h.na] at hr
+  | flush last => exact winv_flush h last
+  | cwrite id =>
+    simp only [wstep, wstepG]
+    refine ⟨h.rg, h.na, h.main, h.nr, fun i => ?_, h.log⟩
+    simp only
+    split
+    · exact h.crg id
+    · exact h.crg i
+  | cpage id col =>
+    simp only [wstep, wstepG]
+    refine ⟨h.rg, h.na, h.main, h.nr, fun i => ?_, h.log⟩
+    simp only
+    split
+    · obtain ⟨ha, hb, hn⟩ := h.crg id
+      obtain ⟨h1, h2, h3⟩ := upage_await ha col
+      exact ⟨h1, fun c => by rw [h2]; exact hb c, fun c => by rw [h3]; exact hn c⟩
+    · exact h.crg i
+  | commit id a b => exact winv_commit h id a b
+  | reset => exact winv_reset h
 
 theorem winv_run {cfg : WCfg} (ops : List WOp) : WInv (wrun cfg ops) := by
   unfold wrun
   suffices ∀ s, WInv s → WInv (ops.foldl (wstep cfg) s) from this _ winv_init
   induction ops with
   | nil => exact fun s h => h
-  | cons o ops ih =>
-    intro s h
-    apply ih
-    cases o with
-    | write => exact ⟨h.rg, h.np, h.buf, h.log⟩
-    | page col => exact winv_page h col
-    | flush last => exact winv_flush h last
-    | commit a b => exact winv_commit h a b
-    | reset => exact winv_reset (s := s)
+  | cons o ops ih => exact fun s h => ih _ (winv_step h o)
 
 theorem wclose_good {cfg : WCfg} {s : WSt} (h : WInv s) : ∀ e ∈ wclose cfg s, e.Good := by
   intro e he
